@@ -492,12 +492,23 @@ Definition FUELM : nat := 200.
 Definition multi_start (cps : list (call * point)) : sys :=
   greedy FUELM (conn0 true (map (fun cp => fresh (fst cp) (match snd cp with PWait2 => 1 | _ => 0 end)) cps)).
 
-(* one connection-ending cause, then run until nothing moves *)
-Definition multi_run (cps : list (call * point)) (z : cause) : sys :=
-  greedy FUELM (apply_cause PWait1 z (multi_start cps)).
+(* the contexts of some of them are cancelled first *)
+Definition cancel_calls (idx : list nat) (s : sys) : sys :=
+  fold_left (fun s i => match nth_error (calls s) i with
+                        | Some c => set_calls s (upd i (set_cx c CtxCanceled) (calls s))
+                        | None => s
+                        end) idx s.
 
-Definition multi_results (cps : list (call * point)) (z : cause) : list (rclass * bool) :=
-  map (fun c => (classify unwraps_fixed None c, retryable c)) (firstn (length cps) (calls (multi_run cps z))).
+(* some cancellations, then one connection-ending cause, each time run until nothing moves *)
+Definition multi_run (cps : list (call * point)) (cancelled : list nat) (z : cause) : sys :=
+  greedy FUELM (apply_cause PWait1 z (greedy FUELM (cancel_calls cancelled (multi_start cps)))).
+
+Definition multi_expect_ctx (cancelled : list nat) (i : nat) : option sentinel :=
+  if existsb (Nat.eqb i) cancelled then Some SCanceled else None.
+
+Definition multi_results (cps : list (call * point)) (cancelled : list nat) (z : cause) : list (rclass * bool) :=
+  map (fun ic => (classify unwraps_fixed (multi_expect_ctx cancelled (fst ic)) (snd ic), retryable (snd ic)))
+      (combine (seq 0 (length cps)) (firstn (length cps) (calls (multi_run cps cancelled z)))).
 
 (* ===================================================================================== *)
 (** * 6. The reconnecting client *)
